@@ -11,7 +11,8 @@ import rawbus
 from rawbus import Msg, METHOD_CALL, SIGNAL, F_PATH, F_INTERFACE, F_MEMBER, F_DESTINATION, F_UNIX_FDS
 
 BUS = "org.freedesktop.DBus"
-MAX_MESSAGE_SIZE = 16384          # <limit name="max_message_size"> of the test configuration
+MAX_MESSAGE_SIZE = 4 * 1024 * 1024  # <limit name="max_message_size"> of the test configuration
+BIG = 100000                       # padding from here on goes into the HEADER (object path) for even tokens, into the body otherwise
 BCAST_RULE = "type='signal',member='B'"
 
 
@@ -36,15 +37,20 @@ def _build(d, pad):
     iface = "x.Denied" if d["denied"] else "x.I"
     k = min(nf, 3)
     sig = "h" * k + "s"
+    # long messages: even tokens carry the padding in the header (a legal, very long object path; a multiple of 8 so that
+    # every later field keeps its alignment and the header grows by exactly that much), odd tokens in the body
+    hpad = (pad // 8) * 8 if (pad >= BIG and tok % 2 == 0 and dest != "d") else 0
+    pad -= hpad
     body = tuple(range(k)) + ("p" * pad,)
+    path = "/x" + ("/" + "a" * (hpad - 1) if hpad else "")
     if dest == "d":
         f = {F_PATH: "/org/freedesktop/DBus", F_INTERFACE: BUS, F_MEMBER: "GetId", F_DESTINATION: BUS}
         mtype, flags = METHOD_CALL, 0
     elif dest == "b":
-        f = {F_PATH: "/x", F_INTERFACE: iface, F_MEMBER: "B"}
+        f = {F_PATH: path, F_INTERFACE: iface, F_MEMBER: "B"}
         mtype, flags = SIGNAL, 0
     else:
-        f = {F_PATH: "/x", F_INTERFACE: iface, F_MEMBER: "T%d" % tok,
+        f = {F_PATH: path, F_INTERFACE: iface, F_MEMBER: "T%d" % tok,
              F_DESTINATION: ("x.Missing" if dest == "m" else conn_name(int(dest[1:])))}
         mtype, flags = (METHOD_CALL, 1) if tok % 2 else (SIGNAL, 0)
     if nf or tok % 3 == 0:
